@@ -242,6 +242,7 @@ def extract_fragment(text, frag, key):
     kind 'match': the k-th `match` expression (in token order) of the function body; if `scrutinee` is given the
     scrutinee expression is replaced by that identifier. Result: `<sig> { <match expr> }`.
     kind 'closure': k-th closure `|..| {body}` or `|..| -> T {body}`; result `<sig> <body block>`.
+    kind 'tail': the statements of the body from the first match of regex `from` to its end; result `<sig> { <statements> }` (index unused).
     kind 'prefix': the statements of the body before the first match of regex `until`; result `<sig> { <statements> <tail> }` (index unused).
     """
     toks = lex(text)
@@ -312,6 +313,24 @@ def extract_fragment(text, frag, key):
         if not m:
             raise LostAnchor('%s: prefix fragment: marker %r not found' % (key, frag['until'][:60]))
         return '%s {%s\n    %s\n}' % (frag['sig'], text[b0:m.start()], frag['tail']), {'until': frag['until'], 'dropped_bytes': len(text) - m.start()}
+    if kind == 'tail':
+        # the statements of the function body FROM the first match of the regex `from` to the end of the body, as a function
+        j = 0
+        while j < len(toks):
+            t = toks[j]
+            if t[0] == 'p' and t[1] in ('(', '['):
+                j = match_close(toks, j) + 1
+                continue
+            if t[0] == 'p' and t[1] == '{':
+                break
+            j += 1
+        if j >= len(toks):
+            raise LostAnchor('%s: no function body' % key)
+        b0, b1 = toks[j][3], toks[match_close(toks, j)][2]
+        m = re.compile(frag['from']).search(text, b0)
+        if not m:
+            raise LostAnchor('%s: tail fragment: marker %r not found' % (key, frag['from'][:60]))
+        return '%s {\n%s\n}' % (frag['sig'], text[m.start():b1]), {'from': frag['from'], 'dropped_bytes': m.start() - b0}
     raise ValueError(kind)
 
 
